@@ -16,11 +16,13 @@ import (
 	"filippo.io/age/xverif/props/c11"
 	"filippo.io/age/xverif/props/c12"
 	"filippo.io/age/xverif/props/c13"
+	"filippo.io/age/xverif/props/c14"
 	"filippo.io/age/xverif/props/c15"
 	"filippo.io/age/xverif/props/c16"
 	"filippo.io/age/xverif/props/c17"
 	"filippo.io/age/xverif/props/c18"
 	"filippo.io/age/xverif/props/c19"
+	"filippo.io/age/xverif/props/c20"
 )
 
 var checks = map[string]func(tier string){
@@ -37,11 +39,13 @@ var checks = map[string]func(tier string){
 	"C11": c11.Run,
 	"C12": c12.Run,
 	"C13": c13.Run,
+	"C14": c14.Run,
 	"C15": c15.Run,
 	"C16": c16.Run,
 	"C17": c17.Run,
 	"C18": c18.Run,
 	"C19": c19.Run,
+	"C20": c20.Run,
 }
 
 func main() {
